@@ -34,7 +34,7 @@ IsEvent(e) == l <= Len(Trace) /\ Trace[l].ev = e /\ l' = l + 1 /\ Mark(l)
 With(f, k, v) == [x \in DOMAIN f \cup {k} |-> IF x = k THEN v ELSE f[x]]
 
 \* ---------------------------------------------------------------- configuration
-SetEntries(lines) == UNION {LineEntries(lines[i]) : i \in 1..Len(lines)}
+SetEntries(lines) == UNION {LineEntries(lines[i]) \cup RxEntries(lines[i]) : i \in 1..Len(lines)}
 Cfg == /\ IsEvent("cfg")
        /\ LET ev == Trace[l] IN
           cfg' = [rules |-> ev.rules,
